@@ -279,6 +279,39 @@ def t_fold(facts, res, tier):
                     res.fail(key, facts.where(fn, arm["body"]), "%s folds Operation::%s using the same operand twice" % (fname, opn))
                 if kind == "cond" and mm.group(4) != mm.group(5):
                     res.fail(key, facts.where(fn, arm["body"]), "%s: folded comparison does not return `!negate` / `negate` consistently" % fname)
+    # inside an arm that has both operands as constants, every folded value is computed from both of them
+    for fname in ("generate_arithm", "generate_shift"):
+        fn = facts.fn(fname, "GeneratorState")
+        helpers = local_closures(fn["body"])
+        for m in walk(fn["body"]):
+            if m.get("k") != "match":
+                continue
+            for arm in m["arms"]:
+                pt = pat_text(arm["pat"]).replace(" ", "")
+                mo = re.match(r"^ExprType::Immediate\((\w+)\)$", pt)
+                if not mo:
+                    continue
+                for m2 in walk(arm["body"]):
+                    if m2.get("k") != "match":
+                        continue
+                    for arm2 in m2["arms"]:
+                        mo2 = re.match(r"^ExprType::Immediate\((\w+)\)$", pat_text(arm2["pat"]).replace(" ", ""))
+                        if not mo2 or mo2.group(1) == mo.group(1):
+                            continue
+                        a, b = mo.group(1), mo2.group(1)
+                        body = plain_arith(arm2["body"], helpers)
+                        k = 0
+                        helper_nodes = {id(y) for st0 in walk(body) if st0.get("k") == "let" and isinstance(st0.get("init"), dict) and st0["init"].get("k") == "closure" for y in walk(st0["init"])}
+                        for x in walk(body):
+                            if id(x) in helper_nodes:
+                                continue
+                            if x.get("k") == "call" and expr_text(x["func"]) == "ExprType::Immediate" and x.get("args"):
+                                k += 1
+                                names = set(re.findall(r"\b\w+\b", expr_text(x["args"][0])))
+                                key = "T-FOLD:%s:both-operands#%d" % (fname, k)
+                                res.inst(key, True, {"folds_as": expr_text(x["args"][0])[:50]})
+                                if not (a in names and b in names):
+                                    res.fail("T-FOLD:%s:constant-result" % fname, facts.where(fn, x), "%s folds two constants to `%s`, which does not depend on both of them: the folded value differs from what the expression computes (and from the constant-expression evaluator)" % (fname, expr_text(x["args"][0])[:50]))
     # unary literal folds
     for fname, want in (("generate_neg", "-i"), ("generate_bnot", "!i")):
         fn = facts.fn(fname, "GeneratorState")
